@@ -237,14 +237,15 @@ def showLbls (ls : List Lbl) : String := ",".intercalate (ls.map fun l => l.1 ++
 
 structure TStore where
   ext : List Lbl
-  series : List (List Lbl × List Sample)
+  /-- label set and chunks (in time order) of every series of the TSDB -/
+  series : List (List Lbl × List (List Sample))
 
 /-- all copies with the label set under which they reach the querier: `(labels, store, samples)` -/
-def tsdbCopies (rl : List String) (stores : List TStore) : List (List Lbl × Nat × List Sample) :=
+def tsdbCopies (rl : List String) (stores : List TStore) : List (List Lbl × Nat × List (List Sample)) :=
   (stores.zipIdx).flatMap fun (st, i) => st.series.map fun (ls, sm) => (storeLabels rl st.ext ls, i, sm)
 
 /-- group the copies by label set (first appearance order); the fuel is the number of copies -/
-def groupCopiesF : Nat → List (List Lbl × Nat × List Sample) → List (List Lbl × List (Nat × List Sample))
+def groupCopiesF : Nat → List (List Lbl × Nat × List (List Sample)) → List (List Lbl × List (Nat × List (List Sample)))
   | 0, _ => []
   | _, [] => []
   | n + 1, (ls, i, sm) :: rest =>
@@ -252,7 +253,7 @@ def groupCopiesF : Nat → List (List Lbl × Nat × List Sample) → List (List 
     let other := rest.filter fun c => !(c.1 == ls)
     (ls, (i, sm) :: same.map (·.2)) :: groupCopiesF n other
 
-def groupCopies (cs : List (List Lbl × Nat × List Sample)) : List (List Lbl × List (Nat × List Sample)) :=
+def groupCopies (cs : List (List Lbl × Nat × List (List Sample))) : List (List Lbl × List (Nat × List (List Sample))) :=
   groupCopiesF cs.length cs
 
 def insertByName (kv : String × Option (List Sample)) :
@@ -260,17 +261,20 @@ def insertByName (kv : String × Option (List Sample)) :
   | [] => [kv]
   | x :: xs => if kv.1 ≤ x.1 then kv :: x :: xs else x :: insertByName kv xs
 
-/-- the whole read path over TSDB-backed stores (every series of a TSDB is one chunk here: the
-    harness keeps a series below the head's chunk cut).  Deduplication on: the requested replica
-    labels are stripped by the stores (or, for stores that do not support it, by the proxy — the
-    same specification), copies with equal remaining labels form one logical series.  Off: nothing
-    is stripped; copies with equal labels are still one series for the proxy. -/
+/-- the whole read path over TSDB-backed stores.  A series of a store is its list of chunks; HOW the
+    store cuts the chunks of one series into response frames is not in the model: the read-path
+    specification concatenates the frames of equal label sets (proxy: C03, stores: C08 of the
+    `stores` family), so a series reaches the querier with all its chunks whatever the frame size.
+    Deduplication on: the requested replica labels are stripped by the stores (or, for stores that
+    do not support it, by the proxy — the same specification), copies with equal remaining labels
+    form one logical series.  Off: nothing is stripped; copies with equal labels are still one
+    series for the proxy. -/
 def selectTSDB (seekFixed dedupOn : Bool) (rl : List String) (qmint qmaxt : Int) (stores : List TStore) :
     List (String × Option (List Sample)) :=
   let groups := groupCopies (tsdbCopies (if dedupOn then rl else []) stores)
   (groups.filterMap fun (ls, cps) =>
-    let reps : List RReplica := cps.zipIdx.map fun ((st, sm), j) =>
-      { rid := j, chunks := if sm.isEmpty then [] else [{ store := st, rank := 0, samples := sm }] }
+    let reps : List RReplica := cps.zipIdx.map fun ((st, chs), j) =>
+      { rid := j, chunks := (chs.filter (!·.isEmpty)).map fun sm => { store := st, rank := 0, samples := sm } }
     let r := if dedupOn then selectDedup seekFixed qmint qmaxt { key := 0, reps := reps }
              else selectRaw qmint qmaxt { rid := 0, chunks := reps.flatMap (·.chunks) }
     r.map fun v => (showLbls ls, v)).foldr insertByName []
